@@ -3,6 +3,7 @@ module verifharness
 go 1.25.3
 
 require (
+	filippo.io/age v1.2.1
 	go4.org v0.0.0-20230225012048-214862532bf5
 	golang.org/x/crypto v0.38.0
 	perkeep.org v0.0.0
